@@ -26,9 +26,12 @@ class C15(Check):
                  "type-directed random ASTs printed minimally (per the generated table) and fully parenthesised through ConfigCompiler::CompileText "
                  "+ ScriptFrame, twice, in forked children; hostile texts/byte strings only have to return or throw")
     level_text = ("Machine-checked theorems (Lean 4 kernel) for EVERY program of the sub-language, environment and fuel: the generated grammar "
-                  "precedence/associativity equals the reference table for levels 1-13; exact operand-class table of every binary operator (value vs "
-                  "type error, result type); evaluation is a function; every evaluation ends in a value, a script error or fuel exhaustion and the "
-                  "frame depth never exceeds 300 (an evaluation at the limit yields the recursion error); && and || do not evaluate the right "
+                  "precedence/associativity equals the reference table for levels 1-13; ONE operand-class table for all 16 binary operators (value of "
+                  "which type / type error / division error / element-wise on the heap) to which the transcription of value-operators.cpp conforms; "
+                  "evaluation is a function; every evaluation ends in a value, a script error, an explicitly unmodelled case or fuel exhaustion and "
+                  "NEVER in an internal error of the model (heap well-formedness invariant over all tasks and all ~45 natives); the frame-depth "
+                  "high-water mark never exceeds 300 for any task, frame and state (invariant by induction on fuel; an evaluation entered at the "
+                  "limit yields the recursion error); && and || do not evaluate the right "
                   "operand when the left decides and return operands; function-body locals do not leak, use() captures at definition time; "
                   "break/continue/return stop at the innermost loop/function; try catches script errors. The model is run (Float = binary64) on "
                   "every generated AST and must reproduce the real evaluator's canonical result bit for bit; the spec predicate (no crash, "
@@ -53,9 +56,9 @@ class C15(Check):
         "each program runs in a fresh ScriptFrame; user globals g0..g3/gf0..gf3 are removed between programs",
     ]
     required_theorems = [
-        "precedence_matches_reference", "operator_typing", "deterministic", "total_or_error", "depth_bounded",
-        "recursion_error_at_limit", "and_or_short_circuit", "scoping_var_does_not_leak", "scoping_use_captures_at_definition",
-        "loop_control", "try_catches_script_errors",
+        "precedence_matches_reference", "operator_typing", "operator_typing_heap", "deterministic", "total_or_error",
+        "no_internal_error", "depth_bounded", "depth_bounded_program", "recursion_error_at_limit", "and_or_short_circuit",
+        "scoping_var_does_not_leak", "scoping_use_captures_at_definition", "loop_control", "try_catches_script_errors",
     ]
 
     # ------------------------------------------------------------------ translator
@@ -323,7 +326,7 @@ class C15(Check):
         if cls == "c15_cyclic_container_recursion":
             # a container that was stored into itself and is then compared / printed
             return ("sig=11" in obs or "timeout" in obs) and re.search(r"\.add\(|\[[^\]]*\]\s*=|\.\w+\s*=", text) is not None \
-                and re.search(r"==|!=|<|>|string\(|to_string|\+", text) is not None
+                and re.search(r"==|!=|<|>|string\(|to_string|\+|\bthrow\b|\bin\b|contains\(|\[[^\]]*\]", text) is not None
         return False
 
     def replay(self, path, harness, driver):
